@@ -4,7 +4,11 @@ import json
 import os
 import sys
 
+import logging
+
 from . import core
+
+logging.disable(logging.CRITICAL)
 
 
 def main(argv):
